@@ -58,6 +58,7 @@ type Contract struct {
 	Ats        []AtRule // assertions attached to call sites / effect classes
 	AssumedEns []Clause // postconditions assumed at call sites but not verified on the body (typing facts about dependencies' output)
 	Invariants []Clause // closure invariants: hold before and after every run of a function literal
+	Skolems    []*SpecFun // `skolem f(S1, S2) R`: a function symbol that is fresh at every call site (existential witness)
 }
 
 var reWhere = regexp.MustCompile(` where arg(\d+) is "([^"]*)" `)
@@ -379,6 +380,16 @@ func (cs *ContractSet) parseContractLines(file, pkgPath string, lines []string, 
 			}
 			r.C = c
 			cur.Ats = append(cur.Ats, r)
+		case "skolem":
+			// skolem name(S1, S2) R
+			i := strings.Index(rest, "(")
+			j := strings.Index(rest, ")")
+			if cur == nil || i < 0 || j < i {
+				return errf(i, "expected: skolem name(S1, ...) R")
+			}
+			sf := &SpecFun{Name: strings.TrimSpace(rest[:i]), Result: strings.TrimSpace(rest[j+1:])}
+			sf.Args = splitTop(rest[i+1 : j])
+			cur.Skolems = append(cur.Skolems, sf)
 		case "trusted":
 			cur.Trusted = true
 			cur.Abstract = append(cur.Abstract, rest)
